@@ -180,7 +180,8 @@ pub fn generate(props: &[&str], seed: u64, thorough: bool, src_path: &str, list_
             }
         };
         let p = Prog { nvars, nq, take: m.case.take, body, raw: false };
-        list.push_str(&format!("{}\t{}\t{}\t{}\n", m.prop, m.twin_of.map(|t| t as isize).unwrap_or(-1), p.line(), m.case.body.print().replace('\t', " ").replace('\n', " ")));
+        let (sl, se) = m.case.lean_line().unwrap_or(("-".into(), "-".into()));
+        list.push_str(&format!("{}\t{}\t{}\t{}\t{}\t{}\n", m.prop, m.twin_of.map(|t| t as isize).unwrap_or(-1), p.line(), m.case.body.print().replace('\t', " ").replace('\n', " "), sl, se));
     }
     src.push_str(&format!("pub const NCASES: usize = {};\n", cs.len()));
     src.push_str("pub fn case(i: usize, vars: &Vars) -> Goal<DU, DE> {\n    match i {\n");
@@ -254,6 +255,12 @@ pub fn run_cases(prop: &str, list_path: &str, outdir: &str, case_fn: &dyn Fn(usi
         }
         let nt = line.contains(" || ") || line.contains('a');
         out.push(p.line_f(fuel), line, fail, nt);
+        // the same surface AST through the LEAN model of the translation (`elabG`): its output must equal the
+        // reference elaboration used above
+        if row.len() >= 6 && row[4] != "-" {
+            out.stat("surface_asts_through_lean_elab");
+            out.push(row[4].clone(), row[5].clone(), None, true);
+        }
     }
     out.write(outdir).expect("write");
 }
